@@ -47,7 +47,9 @@ func vMsgsEqual(got, ref []vMsgOut, label string) {
 // nothing here: delivery is what varies; all values stay symbolic).
 func vC15File(tpl, cfg, cs int) []byte {
 	wl := vMakeWorkload(tpl, 1, 2, 0)
-	_, file := vWriteAll(wl, vOptions(cfg, 0, int64(cs)))
+	opts := vOptions(cfg, 0, int64(cs))
+	w, file := vWriteAll(wl, opts)
+	vAssumeChunkCRCsNonZero(w, file, opts.IncludeCRC)
 	return file
 }
 
@@ -121,6 +123,9 @@ func VC15Err() {
 	src := vNewSource(file)
 	src.errAt = int64(E)
 	src.errWith = vParam("with") == 1
+	// readers that seek get the more general fault: byte E alone is unreadable (a reader that never touches it must
+	// return the complete result; sequential readers cannot get past it, for them it is the sticky error)
+	src.badByte = rd >= 2
 	var gerr error
 	switch rd {
 	case 0:
@@ -141,6 +146,14 @@ func VC15Err() {
 		var got []vMsgOut
 		got, gerr = vIndexedMessages(src, rd-2)
 		vMsgsPrefix(got, ref, "indexed")
+		if gerr == io.EOF {
+			// the reader never needed the unreadable byte (it lies in a part of the file an index-based read skips):
+			// then the result must be complete
+			vAssert(len(got) == len(ref), "an index-based read that ends cleanly returned every message")
+			vReach("bad-byte-not-needed")
+			vReach("end")
+			return
+		}
 	}
 	vAssert(gerr != nil, "a read over a failing source ends with an error")
 	vAssert(gerr != io.EOF && !errors.Is(gerr, io.EOF), "a source I/O error is never reported as a clean end-of-file")
